@@ -359,6 +359,7 @@ var faucetScenario = ledger.Scenario{
 		p.Steps = mix(r.Child("mix"), p.Steps, genFaucet(r.Child("faucet"), p, tier))
 	},
 	Setup: func(w *ledger.World, r *ledger.Runner) []ledger.Observer {
+		setupRaw(w, r)
 		setupFaucet(w, r)
 		return []ledger.Observer{newFaucetOracle()}
 	},
